@@ -87,11 +87,15 @@ CHECKS.update({
                  "submitted, >= quorum assembled signatures), publish_complete (an accepted observation that brings the snapshot set's count to "
                  "quorum publishes in that very step, exactly once), submitted_never_republished + reobserve_keeps_submitted, "
                  "invalid_observation_noop, governance_message_never_signed, before_first_set_dropped are proved for every state and input. "
-                 "Order-independence across permutations is shown by the tie, not yet as a Lean theorem: the harness replays every causally "
-                 "valid permutation of small multisets against fresh processors and the driver evaluates a history-based Spec (published iff "
-                 "observed and quorum of accepted distinct members) on the implementation's own traces."),
-        "note": ("Trusted: Lean kernel; crypto oracle abstract; harness + driver; the confluence statement over permutations is carried by "
-                 "exhaustive small permutation families + random interleavings (labelled as tests), the per-step theorems are unbounded."),
+                 "Order-independence is a theorem too (Whv/Lemmas/Confluence.lean): for one message window under a fixed set, published iff some "
+                 "accepted observation after a message event completes the quorum of distinct accepted signers (published_iff_quorum), at most "
+                 "once, with the own body and a Valid signature list, and any two orders and multiplicities of the same events publish alike "
+                 "(c02_confluence, c02_confluence_same_events). Across set updates the per-step theorems apply; the harness replays permutation, "
+                 "subset and rotation families against fresh processors and the driver evaluates a history-based Spec on the implementation's "
+                 "own traces."),
+        "note": ("Trusted: Lean kernel; crypto oracle abstract; harness + driver. The confluence theorems are for one aggregation window "
+                 "without a set update or deleting cleanup inside it; set updates in between are covered by the unbounded per-step theorems "
+                 "and by the rotation families of the tie (labelled as tests)."),
     },
     "C14": {
         "families": ("processor",),
